@@ -62,6 +62,7 @@ def hook(ch, ctx):
 
 def run(ch, build, hooks=(hook,), prop="C10"):
     core.proof_status(ch, prop, build)
+    started = start_real_udp() if prop == "C10" else None
     depth = 3 if ch.quick() else 5
     for session, alpha in ((False, hist.ALPHA_SL), (True, hist.ALPHA_SS)):
         scripts = [s for s in hist.all_scripts(alpha, depth) if hist.useful(s, session)]
@@ -83,7 +84,7 @@ def run(ch, build, hooks=(hook,), prop="C10"):
         hist.replay(ch, scns, outs, hooks, prop.lower())
         ch.extra["scripts_%s" % ("session" if session else "sessionless")] = len(scripts)
     if prop == "C10":
-        real_udp_loss(ch)
+        real_udp_loss(ch, started)
     ch.extra["depth"] = depth
     ch.exhaustive = True
     return ch.finish(rule=RULE, assumptions=[
@@ -92,22 +93,38 @@ def run(ch, build, hooks=(hook,), prop="C10"):
     ])
 
 
-def real_udp_loss(ch):
-    """outside a session a lost reply is retried until the context expires: over real UDP with the library's own back-off,
-    the first k replies are lost, then the BMC answers; the answer must be returned well inside the context"""
-    import json
+def udp_requests():
+    """over real UDP with the library's OWN back-off (500 ms exponential, no hook): the first k replies are lost or carry a
+    temporary code, then the BMC answers.  k = 7 takes the back-off past ten seconds: the loop must go on for as long as
+    the context allows, not for as long as some internal budget does."""
     reqs = [{"call": "sessionless", "fault": "blackhole", "from": 0, "until": k, "timeout_ms": 100, "deadline_ms": 4000} for k in (1, 2)]
     reqs += [{"call": "sessionless", "fault": "busy", "from": 0, "until": 2, "timeout_ms": 100, "deadline_ms": 4000}]
-    outs = [core.run_lines(core.HARNESS, ["c13 " + json.dumps(r, separators=(",", ":"))], 60)[0] for r in reqs]
-    for rq, o in zip(reqs, outs):
-        res = json.loads(o)
+    reqs += [{"call": "sessionless", "fault": "busy", "from": 0, "until": 7, "timeout_ms": 100, "deadline_ms": 40000},
+             {"call": "session", "fault": "busy", "from": 0, "until": 7, "timeout_ms": 100, "deadline_ms": 40000}]
+    return reqs
+
+
+def start_real_udp():
+    import json
+    from concurrent.futures import ThreadPoolExecutor
+    reqs = udp_requests()
+    ex = ThreadPoolExecutor(len(reqs))
+    futs = [ex.submit(lambda r=r: core.run_lines(core.HARNESS, ["c13 " + json.dumps(r, separators=(",", ":"))], 120)[0]) for r in reqs]
+    return reqs, futs
+
+
+def real_udp_loss(ch, started):
+    import json
+    reqs, futs = started
+    for rq, f in zip(reqs, futs):
+        res = json.loads(f.result())
         ch.note_case("c10-real-udp", json.dumps(rq))
         if res.get("setup"):
             ch.corr_break({"kind": "setup"}, {"request": rq, "result": res}); continue
         if res["err"] != "nil" or res["datagrams"] != rq["until"] + 1:
-            ch.violation({"kind": "c10", "conn": "sessionless", "family": "real-udp-loss"},
+            ch.violation({"kind": "c10", "conn": rq["call"], "family": "real-udp-loss"},
                          {"request": rq, "result": res, "what": "after %d unanswered / temporary attempts the genuine answer must be returned "
-                          "(expected %d transmissions)" % (rq["until"], rq["until"] + 1)})
+                          "(expected %d transmissions; the context had %d ms)" % (rq["until"], rq["until"] + 1, rq["deadline_ms"])})
 
 
 def replay(ch, build, path):
